@@ -138,11 +138,53 @@ func ruleWR5(c *Ctx) {
 		if ok {
 			propagated++
 			c.ok(fn, construct, pos, why)
+		} else if c.cleanupOnFailingPath(s.fn, cv, s.name) {
+			propagated++
+			c.ok(fn, construct, pos, "clean-up (close/remove) on a path every exit of which already returns a non-nil error: success is not reported from here")
 		} else {
 			c.bad(fn, construct, pos, "the error of "+s.name+" is not propagated: "+why+" — exit 0 no longer implies the write happened")
 		}
 	}
 	c.ok("<module>", "storage-call-sites", "-", fmt.Sprintf("%d storage call sites with an error result, %d propagate", total, propagated))
+}
+
+// cleanupOnFailingPath: a Close or Remove whose error is dropped, placed where the function has already failed: every
+// return reachable from the call hands back an error known to be non-nil there.
+func (c *Ctx) cleanupOnFailingPath(fn *ssa.Function, cv *ssa.Call, name string) bool {
+	if name != "(*os.File).Close" && name != "os.Remove" && name != "syscall.Close" {
+		return false
+	}
+	blk := cv.Block()
+	if blk == nil {
+		return false
+	}
+	n := 0
+	for b := range reach(blk, nil, nil) {
+		if len(b.Instrs) == 0 {
+			continue
+		}
+		r, ok := b.Instrs[len(b.Instrs)-1].(*ssa.Return)
+		if !ok {
+			continue
+		}
+		if b == blk && !reachesSelf(blk) && instrIndex(r) < instrIndex(cv) {
+			continue
+		}
+		n++
+		if !c.definitelyFails(fn, r) {
+			return false
+		}
+	}
+	return n > 0
+}
+
+func reachesSelf(b *ssa.BasicBlock) bool {
+	for _, s := range b.Succs {
+		if reach(s, nil, nil)[b] {
+			return true
+		}
+	}
+	return false
 }
 
 func (c *Ctx) wr5Exception(fn *ssa.Function, call ssa.CallInstruction, name string) string {
@@ -452,7 +494,41 @@ func (c *Ctx) sentinelConversion(f *ssa.Function, cv *ssa.Call, ev ssa.Value, r 
 
 func (c *Ctx) fieldStoresOfType(f *ssa.Function, typeName string) map[string][]ssa.Value {
 	out := map[string][]ssa.Value{}
-	for _, g := range append([]*ssa.Function{f}, Closures(f)...) {
+	// the function, its closures, and the module helpers they call that build a value of the type (a reply assembled in
+	// a helper is the reply all the same); a helper's parameters are read through its only call site
+	unit := append([]*ssa.Function{f}, Closures(f)...)
+	inUnit := map[*ssa.Function]bool{}
+	for _, g := range unit {
+		inUnit[g] = true
+	}
+	for i, d := 0, 0; i < len(unit) && d < 64; i, d = i+1, d+1 {
+		for _, call := range callsIn(unit[i]) {
+			h := calleeOf(call.Common())
+			if h == nil || inUnit[h] || !c.InModule(h) || h.Blocks == nil || c.opaqueHelper(h) {
+				continue
+			}
+			builds := false
+			res := h.Signature.Results()
+			for k := 0; k < res.Len(); k++ {
+				if namedTypeName(res.At(k).Type()) == typeName {
+					builds = true
+				}
+			}
+			if builds {
+				inUnit[h] = true
+				unit = append(unit, h)
+				for _, cl := range Closures(h) {
+					inUnit[cl] = true
+					unit = append(unit, cl)
+				}
+			}
+		}
+	}
+	for _, g := range unit {
+		var e env
+		if g != f && g.Parent() == nil {
+			e = c.autoEnv(g)
+		}
 		eachInstr(g, func(r instrRef) {
 			st, ok := r.In.(*ssa.Store)
 			if !ok {
@@ -463,7 +539,11 @@ func (c *Ctx) fieldStoresOfType(f *ssa.Function, typeName string) map[string][]s
 				return
 			}
 			n := fieldName(fa.X.Type(), fa.Field)
-			out[n] = append(out[n], st.Val)
+			v := st.Val
+			if e != nil {
+				v = resolveEnv(v, e)
+			}
+			out[n] = append(out[n], v)
 		})
 	}
 	return out
@@ -534,6 +614,9 @@ func ruleOU3(c *Ctx) {
 							match = true
 						}
 					}
+					if !match && c.currentItemRead(v, pair[1], cb, commit) {
+						match = true // the answer of a path that commits nothing: the stored item's own field, read under the lock
+					}
 					if !match {
 						ok = false
 					}
@@ -560,9 +643,13 @@ func ruleOU3(c *Ctx) {
 				ok := len(out[fl]) > 0
 				why := ""
 				for _, v := range out[fl] {
+					if c.currentItemRead(v, fl, cb, commit) {
+						continue
+					}
 					if !c.replyStateOK(v, fl, ev, re, committed) {
 						ok = false
 						why = c.canon(v)
+						continue
 					}
 					if anyReplay && !c.hasReplayEdge(v, re) {
 						ok = false
@@ -908,6 +995,63 @@ func (c *Ctx) replyStateOK(v ssa.Value, field string, ev *Emission, re *ssa.Func
 	}
 	_, n, okf := fieldLoad(v)
 	return okf && n == field
+}
+
+// currentItemRead: v is the field `field` of a stored item (*Task) - possibly formatted by a one-argument helper - and is
+// produced on a path of the critical section cb from which no commit is reachable: a reply that reports an existing item
+// as it stands, under the lock, without writing. Fields of other records (the creation snapshot kept in TaskMeta for
+// compaction) do not qualify.
+func (c *Ctx) currentItemRead(v ssa.Value, field string, cb *ssa.Function, commit map[*ssa.Function]bool) bool {
+	if cb == nil {
+		return false
+	}
+	v = resolve(v)
+	if cl, ok := v.(*ssa.Call); ok && len(cl.Call.Args) == 1 {
+		if h := calleeOf(&cl.Call); h != nil && c.InModule(h) && !commit[h] {
+			v = resolve(cl.Call.Args[0])
+		}
+	}
+	base, n, ok := fieldLoad(v)
+	if !ok || n != field || base == nil || namedTypeName(base.Type()) != "ergo.Task" {
+		return false
+	}
+	in, isIn := v.(ssa.Instruction)
+	if !isIn {
+		return false
+	}
+	var anchors []*ssa.BasicBlock
+	g := in.Parent()
+	if g == cb {
+		anchors = append(anchors, in.Block())
+	} else {
+		for _, call := range callsIn(cb) {
+			if h := calleeOf(call.Common()); h != nil && (h == Outermost(g) || c.F.TransitiveCallees(h)[Outermost(g)]) {
+				anchors = append(anchors, call.Block())
+			}
+		}
+	}
+	if len(anchors) == 0 {
+		return false
+	}
+	for _, a := range anchors {
+		for b := range reach(a, nil, nil) {
+			for _, bi := range b.Instrs {
+				if call, ok := bi.(ssa.CallInstruction); ok {
+					if h := calleeOf(call.Common()); h != nil && commit[h] {
+						return false
+					}
+				}
+			}
+		}
+		for _, bi := range a.Instrs {
+			if call, ok := bi.(ssa.CallInstruction); ok {
+				if h := calleeOf(call.Common()); h != nil && commit[h] {
+					return false
+				}
+			}
+		}
+	}
+	return true
 }
 
 // derivesFromReplayOf: v is read off the result of replayEvents(X) where X is (or ends with) the committed events slice.
